@@ -223,6 +223,20 @@ func (st *state) onLog(e *simapi.LogEntry) {
 		}
 		pol, _, _ := unstructured.NestedString(e.Before, "spec", "compositeDeletePolicy")
 		xu := &unstructured.Unstructured{Object: xr}
+		// "its XR" is the object this reconcile dealt with: if that one is gone and
+		// an object of the same name was created since (an in-flight XR reconcile's
+		// create-if-missing apply can resurrect a deleted XR), the successor is a
+		// different object and not what this clause is about
+		for i := len(w.Store.Log) - 1; i >= 0; i-- {
+			l := w.Store.Log[i]
+			if l.TaskID == e.TaskID && l.Read && l.Verb == "get" && l.Key.Kind == xrworld.XRGVK.Kind && l.Key.Name == xrName && l.Injected == "" {
+				if l.After == nil || (&unstructured.Unstructured{Object: l.After}).GetUID() != xu.GetUID() {
+					w.S.Probe("claim-finalized-after-xr-gone/same-name-successor-exists")
+					return
+				}
+				break
+			}
+		}
 		if xu.GetDeletionTimestamp() == nil {
 			w.S.Violate("C08/claim-finalized-before-xr-deleted", fmt.Sprintf("claim %s/%s lost its finalizer while its XR %s exists and was never deleted", e.Key.NS, e.Key.Name, xrName))
 		} else if pol == "Foreground" {
